@@ -71,7 +71,7 @@ def coverage(h, rule_extra=''):
         'edge_coverage_feedback': dict(h.get('edge', {}), what='AFL-style edge map (65536 cells) filled by a compiler-inserted callback in the library objects; mutated cases that reach new cells join the mutation pool'),
         'observed': {k: st.get(k) for k in ('api_calls', 'api_rc', 'callbacks', 'cb_nonok', 'tx_created', 'tx_completed', 'tx_destroyed_by_harness',
                                             'tx_auto_destroyed', 'data_other_in', 'data_other_out', 'handover_resumes', 'tunnels', 'gaps', 'gaps_refused',
-                                            'sticky_in', 'sticky_out', 'sticky_seq', 'monitor_checks', 'body_bytes_req', 'body_bytes_res', 'end_markers',
+                                            'sticky_in', 'sticky_out', 'sticky_seq', 'closes_after_error', 'cb_after_stop_at_close', 'monitor_checks', 'body_bytes_req', 'body_bytes_res', 'end_markers',
                                             'max_in_buf', 'max_out_buf', 'max_pending_header', 'max_tx_list', 'bytes_offered_in', 'bytes_offered_out',
                                             'resp_restart_100', 'leftover_in', 'leftover_out', 'stalls', 'null_tx_callbacks', 'distinct_state_pairs', 'trace_sites')},
     }
